@@ -33,6 +33,10 @@ def kWarnColon : Str := [119, 97, 114, 110, 58]  -- 'warn:'
 def kTypeColon : Str := [116, 121, 112, 101, 58]  -- 'type:'
 def kCurrent : Str := [99, 117, 114, 114, 101, 110, 116]  -- 'current'
 def colon : Nat := 58
+def kLocal : Str := [76, 79, 67, 65, 76, 58]  -- 'LOCAL:' (Product.LocalVersionPrefix)
+def kPathFromVersion : Str := [112, 97, 116, 104, 32, 102, 114, 111, 109, 32, 118, 101, 114, 115, 105, 111, 110]  -- 'path from version'
+def kUserColon : Str := [117, 115, 101, 114, 58]  -- 'user:'
+def kGlobalColon : Str := [103, 108, 111, 98, 97, 108, 58]  -- 'global:'
 
 /-- hooks.py l.49: `config.Eups.VRO["default"]` -/
 def defaultBase : List Str := [kTypeExact, kCommandLine, kVersion, kVersionExpr, kCurrent]
@@ -265,6 +269,14 @@ def warnLevel (e : Str) : Option Nat :=
 /-- `^type:(.+)$` -/
 def isType (e : Str) : Bool := kTypeColon.isPrefixOf e && kTypeColon.length < e.length
 
+/-- `SETUP_<NAME> = "name version -f flavor -Z dir"` as `findSetupVersion` parses it; `stack` is the
+index of `dir` on EUPS_PATH (`none`: no `-Z`, or a directory that is not a stack on the path) -/
+structure SetupRec where
+  version : Str
+  flavor : Str
+  stack : Option Nat
+deriving DecidableEq, Repr
+
 structure Req where
   name : Str
   version : Option Str            -- the `version` argument (None or "" = not named)
@@ -275,6 +287,9 @@ structure Req where
   /-- `alreadySetupProducts.get(name)`: the product and `reason[0]` of the reason it was chosen for
   (`none` = set up by an earlier command) -/
   already : Option (Prod × Option Str)
+  /-- what `findSetupVersion(name)` reads from `SETUP_<NAME>` (`none` = not set up); consulted by the
+  `setup` pseudo-tag only -/
+  setupEnv : Option SetupRec := none
 deriving Repr
 
 structure Ctx where
@@ -283,17 +298,43 @@ structure Ctx where
   dbLatest : Db
   /-- registered global tags (hooks.config.Eups.globalTags); `latest` is always registered -/
   globalTags : List Str
+  /-- registered user tags (hooks.config.Eups.userTags and the user's tag cache), unqualified names -/
+  userTags : List Str := []
+  /-- the directories that exist, for `LOCAL:<dir>` versions (`os.path.exists`) -/
+  dirs : List Str := []
 
+/-- `Tags.isRecognized` of an unqualified name -/
 def Ctx.recognized (C : Ctx) (e : Str) : Bool :=
-  C.globalTags.contains e || e == kLatest || pseudoTags.contains e
+  C.globalTags.contains e || e == kLatest || pseudoTags.contains e || C.userTags.contains e
+
+/-- the name under which the chain records of a tag entry are kept (`str(Tags.getTag(e))`): a user tag,
+spelled `mine` or `user:mine`, is kept as `user:mine`; a global tag spelled `global:t` or `:t` as `t`.
+`none`: the entry is not a recognised tag. -/
+def Ctx.tagKey (C : Ctx) (e : Str) : Option Str :=
+  if !e.contains colon then
+    if C.globalTags.contains e || e == kLatest || pseudoTags.contains e then some e
+    else if C.userTags.contains e then some (kUserColon ++ e)
+    else none
+  else if kUserColon.isPrefixOf e && !(e.drop kUserColon.length).contains colon then
+    if C.userTags.contains (e.drop kUserColon.length) then some e else none
+  else if kGlobalColon.isPrefixOf e && !(e.drop kGlobalColon.length).contains colon then
+    if C.globalTags.contains (e.drop kGlobalColon.length) then some (e.drop kGlobalColon.length) else none
+  else
+    match e with
+    | 58 :: t => if !t.contains colon && C.globalTags.contains t then some t else none
+    | _ => none
 
 /-- the two views of a lookup, from the full database, the mode, the flavors the process reads from an
 accepted cache (native + fallbacks) and the per-stack load outcome -/
 def mkCtx (o : Ord) (globalTags : List Str) (full : Db) (m : Mode) (loaded : List Str) (accepted : List Bool) : Ctx :=
   match m with
-  | .files => ⟨o, full, full, globalTags⟩
-  | .cache => ⟨o, cacheView loaded accepted full, cacheView loaded accepted full, globalTags⟩
-  | .mixed => ⟨o, full, cacheView loaded accepted full, globalTags⟩
+  | .files => { ord := o, db := full, dbLatest := full, globalTags := globalTags }
+  | .cache => { ord := o, db := cacheView loaded accepted full, dbLatest := cacheView loaded accepted full,
+                globalTags := globalTags }
+  | .mixed => { ord := o, db := full, dbLatest := cacheView loaded accepted full, globalTags := globalTags }
+
+/-- the same context with user tags registered and the given directories existing -/
+def Ctx.withExtras (C : Ctx) (userTags dirs : List Str) : Ctx := { C with userTags := userTags, dirs := dirs }
 
 /-- the same on the pinned tree (D16) -/
 def mkCtxPinned (o : Ord) (globalTags : List Str) (full : Db) (m : Mode) (native : Str) (accepted : List Bool) : Ctx :=
@@ -323,6 +364,11 @@ def exprPart (C : Ctx) (r : Req) (x : Option Str) : Except Err (Option Prod) :=
       | .ok true => .ok (lookupExpr C.ord C.db r.name r.flavor x)
       | .ok false => .ok none
 
+/-- `LOCAL:<dir>` (l.895-902): `Product(name, version)` — no flavor, no database; the stack index is
+the length of the path ("none of the stacks") -/
+def localProd (C : Ctx) (v : Str) : Option Prod :=
+  if kLocal.isPrefixOf v && C.dirs.contains (v.drop kLocal.length) then some ⟨v, [], C.db.length⟩ else none
+
 /-- a `version` / `version!` / `versionExpr` entry for a request naming `v` (l.840-912).
 
 The code threads one piece of state through the loop: `versionExpr = version` is executed at a
@@ -344,12 +390,35 @@ def lookupVT (C : Ctx) (r : Req) (e : Str) (post : List Str) (v : Str) : Except 
         -- "If we failed to find a versionExpr, we can still use the explicit version"
         match lookupVersion C.db r.name v r.flavor with
         | some p => .ok (.hit p (if r.depth == 0 then kCommandLine else kVersion))
-        | none => if post.any isVT then .ok .skip else .ok .abort   -- never falls through to tags
+        | none =>
+          -- l.895-902: no stack declares it, but it names a directory that exists
+          match localProd C v with
+          | some p => .ok (.hit p (if r.depth == 0 then kCommandLine else kPathFromVersion))
+          | none => if post.any isVT then .ok .skip else .ok .abort   -- never falls through to tags
 
-/-- a tag entry (`latest` included) -/
-def lookupTagEntry (C : Ctx) (r : Req) (e : Str) : Outcome :=
-  match (if e == kLatest then lookupLatest C.ord.cmp C.dbLatest r.name r.flavor
-         else lookupTag C.db e r.name r.flavor) with
+/-- `findSetupProduct(name)` as `_findTaggedProduct` uses it for the `setup` pseudo-tag (l.1142-1147):
+the version `SETUP_<NAME>` names, looked up in the one stack its `-Z` names (`findProduct(..,
+noCache=False)`: through the cache when the instance has one) for the flavor its `-f` names; discarded
+when that is not the flavor asked for.  A `LOCAL:` version is taken as it stands. -/
+def lookupSetup (C : Ctx) (r : Req) : Option Prod :=
+  match r.setupEnv with
+  | none => none
+  | some s =>
+    if s.flavor != r.flavor then none
+    else if kLocal.isPrefixOf s.version then some ⟨s.version, s.flavor, s.stack.getD C.db.length⟩
+    else
+      match s.stack with
+      | none => none
+      | some i =>
+        match C.dbLatest[i]? with
+        | some st => if declared st r.name s.version s.flavor then some ⟨s.version, s.flavor, i⟩ else none
+        | none => none
+
+/-- a tag entry (`latest` and `setup` included); `key` = `C.tagKey e`, the name the chain records carry -/
+def lookupTagEntry (C : Ctx) (r : Req) (e key : Str) : Outcome :=
+  match (if key == kLatest then lookupLatest C.ord.cmp C.dbLatest r.name r.flavor
+         else if key == kSetup then lookupSetup C r
+         else lookupTag C.db key r.name r.flavor) with
   | some p => .hit p e
   | none => .skip
 
@@ -375,11 +444,17 @@ def lookupEntry (C : Ctx) (r : Req) (e : Str) (post : List Str) : Except Err Out
     | some v => lookupVT C r e post v
   else if isWarn e then
     if e == kWarn then .error .indexError else .ok .skip
-  else if e.contains colon then
-    if isType e then .ok .skip else .error .unsupported
-  else if C.recognized e then
-    if e == kSetup then .error .unsupported else .ok (lookupTagEntry C r e)
-  else .ok .skip                                       -- "Impossible entry on the VRO"
+  else
+    match C.tagKey e with
+    | some key =>                                      -- `self.tags.isRecognized(vroTag)`
+      -- with `ignore_versions` the `findProduct` inside `findSetupProduct` turns into `findPreferredProduct`
+      -- (the pre-VRO API reading the instance's own preferred tags): outside the model
+      if key == kSetup && r.ignoreVersions && r.setupEnv.isSome then .error .unsupported
+      else .ok (lookupTagEntry C r e key)
+    | none =>
+      if e.contains colon then
+        if isType e then .ok .skip else .error .unsupported   -- `file:`, other tag groups
+      else .ok .skip                                   -- "Impossible entry on the VRO"
 
 /-- a product, the reason reported for it, and the VRO entry at which the loop stopped (`vroTag0`) -/
 structure Hit where
@@ -689,6 +764,79 @@ def selectVROTwice (c : VroCfg) (a : VroArgs) : Except Err VroOut :=
   | .error e => .error e
   | .ok o1 =>
     selectVRO { c with vroDict := o1.dict', exact := o1.exact, cmdTags := o1.cmdTags, prevPreferred := o1.vro } a
+
+/-! ## command-line glue: `setup [-t..] [-T..] [-c] [-e] [-z db] product [version]` (setupcmd.py l.222-253) and
+`eups vro` with the same arguments (cmd.py `VroCmd.execute`), which is documented to "print the VRO to use if
+issuing the setup command with the same arguments" -/
+
+inductive CliTok where
+  | tag (t : Str)          -- `-t t`
+  | postTag (t : Str)      -- `-T t`
+  | current                -- `-c`
+deriving DecidableEq, Repr
+
+def kNone : Str := [78, 111, 110, 101]  -- 'None'
+
+/-- `opts.tag`: the `-t` values in command-line order (optparse `append`) -/
+def cliTags (l : List CliTok) : List Str :=
+  l.filterMap fun k => match k with | .tag t => some t | _ => none
+
+/-- `opts.postTag` when `-c` is an optparse *callback* that appends `current` where it stands (setupcmd.py
+`append_current`; `eups vro` too since fix D91) -/
+def cliPostInOrder (l : List CliTok) : List Str :=
+  l.filterMap fun k => match k with | .postTag t => some t | .current => some kCurrent | .tag _ => none
+
+/-- `opts.postTag` of `eups vro` before fix D91: `-c` was a flag, `current` appended after all `-T` values -/
+def cliPostFlagLast (l : List CliTok) : List Str :=
+  (l.filterMap fun k => match k with | .postTag t => some t | _ => none) ++
+    (if l.contains .current then [kCurrent] else [])
+
+/-- hooks.config.Eups.defaultTags -/
+structure DefaultTags where
+  pre : List Str
+  post : List Str
+deriving Repr
+
+/-- `Eups._processDefaultTags(opts)` (l.74-102): `-t None` / `-t ""` mean "no tag, and no default tags
+either"; default tags are used when neither -t nor -T is given -/
+def processDefaultTags (userVRO : Bool) (d : DefaultTags) (tags postTags : List Str) : List Str × List Str :=
+  if tags == [kNone] || tags == [[]] then ([], postTags)
+  else if userVRO then (tags, postTags)
+  else if tags.isEmpty && postTags.isEmpty then (d.pre, d.post)
+  else (tags, postTags)
+
+structure CliCmd where
+  toks : List CliTok
+  version : Bool             -- a version argument follows the product
+  exact : Bool               -- `-e`
+  dbz : Option Str           -- `-z`
+deriving Repr
+
+def cliArgs (k : CliCmd) (tags post : List Str) (version : Bool) : VroArgs :=
+  { tags := tags, productDir := false, versionName := version, dbz := k.dbz, inexact := false, postTags := post }
+
+/-- the VRO `setup` resolves with: default tags first, then one `selectVRO` on the fresh instance -/
+def setupCmdVro (c : VroCfg) (d : DefaultTags) (k : CliCmd) : Except Err VroOut :=
+  let tp := processDefaultTags c.userVRO d (cliTags k.toks) (cliPostInOrder k.toks)
+  selectVRO { c with exact := k.exact } (cliArgs k tp.1 tp.2 k.version)
+
+/-- `eups vro` (with fixes D90, D91): default tags first; `createEups` calls `selectVRO(tag, None, None, dbz)` on
+the instance, `execute` calls it again with all the arguments (`selectVROTwice`) -/
+def vroCmd (c : VroCfg) (d : DefaultTags) (k : CliCmd) : Except Err VroOut :=
+  let tp := processDefaultTags c.userVRO d (cliTags k.toks) (cliPostInOrder k.toks)
+  selectVROTwice { c with exact := k.exact } (cliArgs k tp.1 tp.2 k.version)
+
+/-- `eups vro` on the pinned tree: `createEups` ran `selectVRO` with the *raw* `-t` values (so `-t None` put
+`None` into the dictionary's list) before `_processDefaultTags` (D90), and `-c` was appended last (D91) -/
+def vroCmdPinned (c : VroCfg) (d : DefaultTags) (k : CliCmd) : Except Err VroOut :=
+  let raw := cliTags k.toks
+  let c0 := { c with exact := k.exact }
+  match selectVRO c0 (cliArgs k raw [] false) with
+  | .error e => .error e
+  | .ok o1 =>
+    let tp := processDefaultTags c.userVRO d raw (cliPostFlagLast k.toks)
+    selectVRO { c0 with vroDict := o1.dict', exact := o1.exact, cmdTags := o1.cmdTags, prevPreferred := o1.vro }
+      (cliArgs k tp.1 tp.2 k.version)
 
 /-! ## the VRO in force for one `setupRequired` / `setupOptional` line (table.py `processArgs`, l.889-945) -/
 
